@@ -191,7 +191,7 @@ func sigsJSON(sigs [][]byte) []string {
 	return out
 }
 
-var attModes = []string{"valid", "signature-lists", "wrong-tag", "membership", "non-membership", "conflict", "frozen", "quorum", "malformed"}
+var attModes = []string{"valid", "signature-lists", "wrong-tag", "membership", "non-membership", "conflict", "frozen", "quorum", "malformed", "heights", "heights"}
 
 // mutateSigs produces the signature-list shapes the property names. quorumSigners are valid signers.
 func (h *attHist) mutateSigs(data []byte, tag attestations.AttestationType, note *string) [][]byte {
@@ -375,7 +375,80 @@ func (h *attHist) opUpdate(mode string, special bool) {
 var attKeys = []string{"commitments/ports/transfer/channels/channel-0/sequences/1", "receipts/ports/transfer/channels/channel-0/sequences/1",
 	"acks/ports/transfer/channels/channel-0/sequences/2", "k"}
 
-func (h *attHist) opVerify(mode string, special, nonmember bool) {
+// heightCase forces the (proof height, attested height) pair of a verification whose attestation is otherwise
+// valid and quorum-signed under the packet tag.
+type heightCase struct {
+	proof, att uint64
+	note       string
+}
+
+// pickHeightCase draws the proof height and the height embedded in the attestation independently from
+// {stored consensus heights} and {heights without a consensus state}, so that every combination of
+// attested <, =, > proof height with consensus state present/absent at either height occurs.
+func (h *attHist) pickHeightCase() *heightCase {
+	r := h.e.r
+	cons := h.consensus()
+	stored := map[uint64]bool{}
+	var sl []uint64
+	for _, c := range cons {
+		var x uint64
+		fmt.Sscan(c[0], &x)
+		stored[x] = true
+		sl = append(sl, x)
+	}
+	var absent []uint64
+	for _, x := range sl {
+		for _, y := range []uint64{x - 1, x + 1, x + 2} {
+			if y >= 1 && !stored[y] {
+				absent = append(absent, y)
+			}
+		}
+	}
+	pick := func(fromStored bool) (uint64, string) {
+		if fromStored || len(absent) == 0 {
+			return sl[r.Intn(len(sl))], "stored"
+		}
+		return absent[r.Intn(len(absent))], "absent"
+	}
+	p, ps := pick(r.Chance(2, 3))
+	var a uint64
+	var as string
+	for try := 0; ; try++ {
+		a, as = pick(r.Chance(2, 3))
+		if a != p || r.Chance(1, 4) || try > 8 {
+			break
+		}
+	}
+	rel := "equal"
+	if a < p {
+		rel = "lower"
+	} else if a > p {
+		rel = "higher"
+	}
+	return &heightCase{proof: p, att: a, note: "attested-" + rel + "(" + as + ")-proof(" + ps + ")"}
+}
+
+// opUpdateAt submits a valid, fully signed state attestation for (height, tsSeconds).
+func (h *attHist) opUpdateAt(height, tsSeconds uint64, note string) {
+	data := h.stateData(height, tsSeconds)
+	sigs := h.signWith(data, attestations.AttestationTypeState, h.attestors)
+	proof := &attestations.AttestationProof{AttestationData: data, Signatures: sigs}
+	h.oldState = append(h.oldState, proof)
+	h.recordData(data)
+	for _, s := range sigs {
+		h.recordRecover(data, s)
+	}
+	h.ops = append(h.ops, map[string]any{"op": "update", "data": hx.H(data), "sigs": sigsJSON(sigs), "note": note})
+	res := h.run(func(ctx sdk.Context) error {
+		if err := proof.ValidateBasic(); err != nil {
+			return err
+		}
+		return h.ck.UpdateClient(ctx, h.clientID, proof)
+	})
+	h.outs = append(h.outs, h.observe(res))
+}
+
+func (h *attHist) opVerify(mode string, special, nonmember bool, force ...*heightCase) {
 	r := h.e.r
 	cons := h.consensus()
 	var height uint64
@@ -423,7 +496,11 @@ func (h *attHist) opVerify(mode string, special, nonmember bool) {
 				note = "other-path"
 			case 4:
 				attHeight = height + 1
-				note = "attested-other-height"
+				note = "attested-higher-height"
+				if r.Bool() && height > 1 {
+					attHeight = height - 1 - uint64(r.Intn(int(min64(int64(height-1), 2))))
+					note = "attested-lower-height"
+				}
 			case 5:
 				proofHeight = clienttypes.NewHeight(0, height+uint64(1+r.Intn(3)))
 				attHeight = proofHeight.RevisionHeight
@@ -497,6 +574,11 @@ func (h *attHist) opVerify(mode string, special, nonmember bool) {
 				}
 			}
 		}
+	}
+	if len(force) > 0 && force[0] != nil {
+		proofHeight = clienttypes.NewHeight(0, force[0].proof)
+		attHeight = force[0].att
+		note = force[0].note
 	}
 	if !omitMine {
 		packets = append(packets, mine)
@@ -614,8 +696,21 @@ func (h *attHist) history(mode string) {
 	init := map[string]any{"attestors": addrBytes, "min": hx.U(uint64(h.minSigs)), "latest": hx.U(latest), "frozen": false, "cons": h.consensus()}
 
 	nops := 3 + r.Intn(5)
+	if mode == "heights" {
+		// consensus states at several heights with gaps in between, some below the initial one
+		h.opUpdateAt(latest+2, 2000+uint64(r.Intn(100)), "seed-height")
+		h.opUpdateAt(latest+5+uint64(r.Intn(2)), 3000+uint64(r.Intn(100)), "seed-height")
+		if latest > 2 && r.Bool() {
+			h.opUpdateAt(latest-2, 500+uint64(r.Intn(100)), "seed-lower-height")
+		}
+		nops = 4 + r.Intn(3)
+	}
 	for i := 0; i < nops; i++ {
 		special := mode != "valid" && r.Chance(3, 5)
+		if mode == "heights" {
+			h.opVerify("valid", false, r.Chance(1, 3), h.pickHeightCase())
+			continue
+		}
 		if mode == "frozen" && i == 1 {
 			// freeze by a conflicting timestamp for the initial height
 			data := h.stateData(latest, ts0/1_000_000_000+1)
@@ -732,7 +827,7 @@ func famAttest(e *env) {
 			"tag": int(checkTag), "recover": recs}, res, note)
 	}
 
-	m := hx.N(63, 504)
+	m := hx.N(77, 616)
 	for i := 0; i < m; i++ {
 		ctx, _ := e.ctx.CacheContext()
 		h := &attHist{e: e, cdc: cdc, ck: ck, ctx: ctx, recs: map[string][3]any{}, keccaks: map[string]string{}, decP: map[string]any{}, decS: map[string]any{},
